@@ -28,6 +28,7 @@ import (
 	"github.com/janelia-flyem/dvid/datastore"
 	"github.com/janelia-flyem/dvid/datatype/common/proto"
 	"github.com/janelia-flyem/dvid/dvid"
+	"github.com/janelia-flyem/dvid/dvid/verifhook"
 	"github.com/janelia-flyem/dvid/server"
 	"github.com/janelia-flyem/dvid/storage"
 )
@@ -1453,6 +1454,7 @@ func (d *Data) storeAndUpdate(ctx *datastore.VersionedCtx, keyStr string, newDat
 	dvid.Infof("neuronjson %s put by user %q, conditionals %v, replace %t:\nOrig: %s\n Rcv: %s\n New: %s\n",
 		d.DataName(), ctx.User, conditionals, replace, origJSON, rcvJSON, newJSON)
 
+	verifhook.Yield("neuronjson.storeAndUpdate.read")
 	// write result
 	mdb, found := d.getMemDBbyVersion(ctx.VersionID())
 	if found {
@@ -1475,6 +1477,7 @@ func (d *Data) storeAndUpdate(ctx *datastore.VersionedCtx, keyStr string, newDat
 		mdb.addBodyID(bodyid)
 		mdb.mu.Unlock()
 	}
+	verifhook.Yield("neuronjson.storeAndUpdate.store")
 	return d.putStoreData(ctx, keyStr, newData)
 }
 
